@@ -95,7 +95,10 @@ Definition can_continue (c : conf) (oe : option err) : decision :=
 
 Inductive errkind :=
 | Plain | Wrapped | PanicErr | PanicStr | PanicOther | PanicErrSlice
-| Skip | Eof | Abort | CtxCanceled | CtxDeadline | Excluded.
+| Skip | Eof | Abort | CtxCanceled | CtxDeadline | Excluded
+| PanicWrap (t : errid)   (* panic(v) where v IS (bare) or WRAPS (tagged: together with the own sentinel) the sentinel t,
+                             e.g. panic(io.EOF), panic(fmt.Errorf("x: %w / %w", context.Canceled, s_id)) *)
+| RetMarked.              (* a RETURNED error that wraps ErrRecoveredPanic and the own sentinel *)
 
 (* The user function's behaviour for a failure of kind k carrying the user sentinel `id`.
    `tagged`: the special sentinel is joined with the position's own sentinel (ers.Join(io.EOF, s_id))
@@ -114,6 +117,8 @@ Definition outcome_of (k : errkind) (id : errid) (tagged : bool) : outcome :=
   | Abort => ORet (Some (id_abort :: tag))
   | CtxCanceled => ORet (Some (id_canceled :: tag))
   | CtxDeadline => ORet (Some (id_deadline :: tag))
+  | PanicWrap t => OPanic (PVErr (t :: tag))
+  | RetMarked => ORet (Some [id_panic; id])
   end.
 
 Definition err_of (k : errkind) (id : errid) (tagged : bool) : option err :=
@@ -125,13 +130,13 @@ Definition classify (c : conf) (k : errkind) (id : errid) (tagged : bool) : deci
 (* ---------------------------------------------------------------- the contract (property text) *)
 
 Definition is_panic_kind (k : errkind) : bool :=
-  match k with PanicErr | PanicStr | PanicOther | PanicErrSlice => true | _ => false end.
+  match k with PanicErr | PanicStr | PanicOther | PanicErrSlice | PanicWrap _ | RetMarked => true | _ => false end.
 
 (* written independently of can_continue, as a table over the option bits *)
 Definition contract (c : conf) (k : errkind) : decision :=
   match k with
   | Plain | Wrapped | Abort => mkdec true (continue_on_error c)
-  | PanicErr | PanicStr | PanicOther | PanicErrSlice => mkdec true (continue_on_panic c)
+  | PanicErr | PanicStr | PanicOther | PanicErrSlice | PanicWrap _ | RetMarked => mkdec true (continue_on_panic c)
   | Skip => mkdec false true
   | Eof => mkdec false false
   | CtxCanceled | CtxDeadline => mkdec (include_ctx c) false
@@ -141,7 +146,7 @@ Definition contract (c : conf) (k : errkind) : decision :=
 (* does the kind carry the sentinel `id` in a place errors.Is can see? *)
 Definition carries_id (k : errkind) (tagged : bool) : bool :=
   match k with
-  | Plain | Wrapped | Excluded | PanicErr | PanicErrSlice => true
+  | Plain | Wrapped | Excluded | PanicErr | PanicErrSlice | RetMarked => true
   | PanicStr | PanicOther => false
   | _ => tagged
   end.
